@@ -89,6 +89,11 @@ func (am *assetMgr) discoverAssets(logger *slog.Logger) error {
 
 	for aID, a := range am.assets {
 		logger := logger.With("assetPath", a.AssetPath)
+		if len(a.MPDs) == 0 {
+			logger.Warn("Asset without any loadable MPD. Skipping")
+			delete(am.assets, aID)
+			continue
+		}
 		err := a.consolidateAsset(logger)
 		if err != nil {
 			logger.Warn("Asset consolidation problem. Skipping", "error", err.Error())
@@ -135,7 +140,6 @@ func (am *assetMgr) loadAsset(logger *slog.Logger, mpdPath string) error {
 		}
 	}
 	md.Dur = mpd.MediaPresentationDuration.String()
-	asset.MPDs[mpdName] = md
 
 	fillContentTypes(assetPath, mpd.Periods[0])
 
@@ -170,6 +174,8 @@ func (am *assetMgr) loadAsset(logger *slog.Logger, mpdPath string) error {
 			}
 		}
 	}
+	// The MPD is only made available once all its representations are loaded
+	asset.MPDs[mpdName] = md
 	logger.Info("Asset MPD loaded")
 	return nil
 }
